@@ -68,6 +68,11 @@ static KSI_LIST(KSI_HashChainLink) *mk_links(char *spec, int *err) {
 			if (r == KSI_OK) r = KSI_MetaDataElement_fromTlv(t, &m);
 			KSI_TLV_free(t);
 			if (r != KSI_OK) { *err = 3; KSI_HashChainLink_free(l); break; }
+			/* an application may have read the record's fields before it aggregates the chain */
+			if (n % 2) { KSI_Utf8String *s1 = NULL, *s2 = NULL; KSI_Integer *i1 = NULL, *i2 = NULL;
+				KSI_MetaDataElement_getClientId(m, &s1); KSI_MetaDataElement_getMachineId(m, &s2);
+				KSI_MetaDataElement_getSequenceNr(m, &i1); KSI_MetaDataElement_getRequestTimeInMicros(m, &i2);
+				/* (the values stay with the record) */ }
 			KSI_HashChainLink_setMetaData(l, m);
 		}
 		if (KSI_HashChainLinkList_append(lst, l) != KSI_OK) { KSI_HashChainLink_free(l); *err = 1; break; }
